@@ -30,6 +30,35 @@ bounded grammar below is given to the real `Float[Duck, spec]` and judged by
                      checks only while the switches are off (what a *check* does while
                      jaxtyping_disable is on is C19's subject).
 
+ (7) array type    : the dim-string language does not depend on the array type.  EVERY spec
+                     of the space is also built on the Python / NumPy scalar array types
+                     (bool, int, float, complex, np.bool_, np.number, np.generic -- each under a
+                     dtype category that contains it) and on two unions of a scalar type and
+                     an array class (Union[float, Duck], Duck | int): a documented illegal
+                     form is a ValueError there too; a legal form gives the scalar type
+                     itself when the shape admits rank 0 (every axis is a multi-axis
+                     specifier) and ValueError otherwise (the scalar law of C15,
+                     refs/dtypes_c15.scalar_rule; np.generic, which no document mentions:
+                     either); a legal form on a union is built and accepts the arrays the
+                     plain annotation accepts plus, iff the shape admits rank 0, the scalars.
+                     Every spec is also built on np.ndarray, Any, two TypeVars and a nested
+                     annotation: same outcome as on the duck array class.
+ (8) history       : legality and meaning of a dim string do not depend on which OTHER
+                     annotations were built (or refused) before with the same dim string or
+                     with strings sharing its tokens.  For every spec, in jobs queued after
+                     every baseline job: a nested build with an empty
+                     dtype intersection (Bool[Float[Duck,'q'], spec]: refused whatever the
+                     spec), a nested build onto an annotation that has a multi-axis specifier
+                     (Shaped[Shaped[Duck,'... q'], spec]: refused iff the spec has one too),
+                     a build while set_array_name_format holds an unknown value (refused
+                     whatever the spec) and one under the format 'array',
+                     for a legal spec the refused builds of its illegal relatives
+                     (refs/dims_ext.illegal_relatives), for an illegal spec the successful
+                     builds of its legal relatives -- each followed by rebuilds of the spec on
+                     used, related and never-used (array type, category) combinations, which
+                     must have the outcome (and, on the state_deep sub-space, the acceptance
+                     vectors) of a control build of Float[Duck, spec] made just before.
+
 The base alphabet includes the NAME alphabet of refs/dims_ext (every Python keyword and
 soft keyword, builtins' names, non-ASCII identifiers, literal look-alikes) in every
 modifier combination: a name is whatever str.isidentifier() accepts.
@@ -167,11 +196,26 @@ class Env:
     common.bind_repo())."""
 
     def __init__(self, quick: bool):
-        from jaxtyping import AbstractDtype, Float, config
+        import typing
+
+        import numpy as np
+
+        from jaxtyping import AbstractDtype, Bool, Complex, Float, Int, Num, Shaped, config
         from ..adapter import Duck
         from ..fixtures.c14_probe import Prober, ref_context
 
         self.Float, self.Duck = Float, Duck
+        self.cats = dict(Float=Float, Bool=Bool, Int=Int, Complex=Complex, Num=Num, Shaped=Shaped)
+        self.scalar_types = {"bool": bool, "int": int, "float": float, "complex": complex, "np.bool_": np.bool_, "np.number": np.number, "np.generic": np.generic}
+        self.scalar_probes = [True, 1, 1.5, 1j, np.bool_(True), np.float32(1), np.int8(1), np.complex64(1), "x", None]
+        self.unions = {"Union[float,Duck]": (typing.Union[float, Duck], float), "Duck|int": (Duck | int, int)}
+        self.arr_builds = self.arr_vectors = self.arr_kept = self.arr_refused = self.arr_illegal = 0
+        self.hist_builds = self.hist_vectors = self.hist_scenarios = self.hist_ops_refused = self.hist_ops_built = 0
+        self._inner = {}
+        import jaxtyping
+
+        self.name_format = (getattr(jaxtyping, "get_array_name_format", None), getattr(jaxtyping, "set_array_name_format", None))
+        self.other_arrs = {"np.ndarray": np.ndarray, "Any": typing.Any, "TypeVar(bound=Duck)": typing.TypeVar("VfT", bound=Duck), "TypeVar(Duck,np.ndarray)": typing.TypeVar("VfC", Duck, np.ndarray)}
         self.AbstractDtype, self.config = AbstractDtype, config
         for _short, item in SWITCHES:
             if getattr(config, item) is not False:
@@ -230,11 +274,21 @@ class Env:
         self.state_vectors += 1
         return out
 
-    def build(self, spec, cat=None):
+    def inner(self, cname, spec):
+        """The annotation cname[Duck, spec] that the history family nests onto ('q', '... q':
+        legal strings outside the token alphabet of the space).  -> (annotation | None,
+        problem text | None): that it cannot be built is a finding, not a harness error."""
+        key = (cname, spec)
+        if key not in self._inner:
+            kind, val = self.build(spec, self.cats[cname])
+            self._inner[key] = (val, None) if kind == "ann" else (None, f"{cname}[Duck, {spec!r}] (a legal annotation, needed as the inner part of a nested build) gives {kind}({val!r})")
+        return self._inner[key]
+
+    def build(self, spec, cat=None, arr=None):
         """-> ('ann', annotation) | ('ValueError', msg) | ('other', 'TypeName: msg')"""
         self.builds += 1
         try:
-            return ("ann", (cat or self.Float)[self.Duck, spec])
+            return ("ann", (cat or self.Float)[self.Duck if arr is None else arr, spec])
         except ValueError as e:
             return ("ValueError", str(e)[:120])
         except Exception as e:  # noqa: BLE001
@@ -403,7 +457,7 @@ L_USED_ON = "{item} on, combination used while off"
 NO_VECTOR = {L_CONTROL} | {L_USED_ON.format(item=i) for _, i in SWITCHES}
 
 
-def judge_state(env, st, soft, totality_only, base, base_vecs, tp, outs, deep, base_label="when built while every switch was off"):
+def judge_state(env, st, soft, totality_only, base, base_vecs, tp, outs, deep, base_label="when built while every switch was off", no_vector=None, prefix="state"):
     """Compare the builds `outs` = [(label, kind, value)] made in other process states with
     the build `base` = (kind, value) made while every switch was off.
     -> [(problem-kind, text)], at most one of each kind.  Where the statement leaves the
@@ -413,22 +467,22 @@ def judge_state(env, st, soft, totality_only, base, base_vecs, tp, outs, deep, b
     strict = st in ("ok", "error") and not soft and not totality_only
     for label, kind, val in outs:
         if kind == "other" and bkind != "other":
-            probs.append(("state-totality", f"{label}: building raised {val} (neither an annotation nor ValueError)"))
+            probs.append((prefix + "-totality", f"{label}: building raised {val} (neither an annotation nor ValueError)"))
             break
         if strict and kind != bkind:
             shown = "an annotation" if kind == "ann" else f"{kind}({val!r})"
             bshown = "an annotation" if bkind == "ann" else f"{bkind}({base[1]!r})"
-            probs.append(("state-outcome", f"{label}: building gives {shown}, but {bshown} {base_label}"))
+            probs.append((prefix + "-outcome", f"{label}: building gives {shown}, but {bshown} {base_label}"))
             break
     if deep and bkind == "ann" and st == "ok" and not totality_only:
         if base_vecs is None:
             base_vecs = env.compact(base[1], tp)
         for label, kind, val in outs:
-            if kind != "ann" or label in NO_VECTOR:
+            if kind != "ann" or label in (NO_VECTOR if no_vector is None else no_vector):
                 continue
             d = _first_diff(env, env.compact(val, tp), base_vecs, base_label)
             if d:
-                probs.append(("state-meaning", f"{label}: {d}"))
+                probs.append((prefix + "-meaning", f"{label}: {d}"))
                 break
     return probs
 
@@ -458,6 +512,212 @@ def eval_state(env: Env, spec: str, st, soft, totality_only, info, deep, switche
         env.state_builds += len(outs)
         for kind, text in judge_state(env, st, soft, totality_only, base, info.get("_vecs"), info["_tp"], outs, deep):
             out.append((kind, short, text))
+    return out
+
+
+# ------------------------------------------------------------- the array-type dimension
+
+# (dtype category, scalar array type): every scalar array type under a category that contains it
+SCALAR_PAIRS = [("Bool", "bool"), ("Int", "int"), ("Float", "float"), ("Complex", "complex"), ("Bool", "np.bool_"), ("Num", "np.number"), ("Shaped", "np.generic")]
+UNION_PAIRS = [("Float", "Union[float,Duck]"), ("Shaped", "Duck|int")]
+# the other kinds of array-type expression (outcome only; what they mean is C15's subject)
+OTHER_PAIRS = [("Shaped", "np.ndarray"), ("Int", "Any"), ("Float", "TypeVar(bound=Duck)"), ("Float", "TypeVar(Duck,np.ndarray)"), ("Float", "Float[Duck,'q']")]
+
+
+def eval_arrtype(env: Env, spec: str, st, axes, soft, totality_only, info):
+    """The array-type dimension for one spec (see (7) in the module docstring).
+    -> [(problem-kind, 'Cat[type]', text)]"""
+    from ..fixtures.c14_probe import accept
+    from ..refs import dtypes_c15 as rd
+
+    out = []
+    judged = st in ("ok", "error") and not totality_only
+    rank0 = st == "ok" and dx.all_multi(axes)
+    base_kind, base_val = info["_base"]
+    for cname, tname in SCALAR_PAIRS:
+        typ = env.scalar_types[tname]
+        lab = f"{cname}[{tname}]"
+        kind, val = env.build(spec, env.cats[cname], typ)
+        env.arr_builds += 1
+        if kind == "other":
+            out.append(("arrtype-totality", lab, f"{cname}[{tname}, {spec!r}] raised {val} (neither an annotation nor ValueError)"))
+            continue
+        if not judged:
+            continue
+        if st == "error":
+            env.arr_illegal += 1
+            if kind != "ValueError":
+                out.append(("arrtype-illegal-accepted", lab, f"{cname}[{tname}, {spec!r}] gives {val!r}: the documented illegal form ({axes}) was accepted on a scalar array type"))
+            continue
+        if tname not in rd.SCALAR_KIND:
+            continue  # np.generic: no document says what a legal annotation on it is
+        rule = rd.scalar_rule(cname, axes, tname)
+        if rule == "keep":
+            env.arr_kept += 1
+            if kind != "ann":
+                out.append(("arrtype-legal-rejected", lab, f"{cname}[{tname}, {spec!r}] raised ValueError({val!r}) although the shape admits rank 0 and the category contains the scalar's kind"))
+            elif val is not typ:
+                vals = env.scalar_probes + env.values[:8]
+                got = env.prober.vector(val, vals, None)
+                want = tuple(isinstance(v, typ) for v in vals)
+                if got != want:
+                    i = next(i for i, (x, y) in enumerate(zip(got, want)) if x != y)
+                    out.append(("arrtype-meaning", lab, f"{cname}[{tname}, {spec!r}] gives {val!r}; probe {vals[i]!r}: verdict {got[i]!r}, isinstance(probe, {tname}) is {want[i]!r}"))
+        elif rule == "drop":
+            env.arr_refused += 1
+            if kind != "ValueError":
+                out.append(("arrtype-kept", lab, f"{cname}[{tname}, {spec!r}] gives {val!r} although the shape does not admit rank 0 (documented outcome: ValueError)"))
+    for cname, aname in OTHER_PAIRS:
+        if aname in env.other_arrs:
+            arr = env.other_arrs[aname]
+        else:
+            arr, prob = env.inner("Float", "q")
+            if arr is None:
+                out.append(("arrtype-setup", f"{cname}[{aname}]", prob))
+                continue
+        lab = f"{cname}[{aname}]"
+        kind, val = env.build(spec, env.cats[cname], arr)
+        env.arr_builds += 1
+        if kind == "other":
+            out.append(("arrtype-totality", lab, f"{cname}[{aname}, {spec!r}] raised {val} (neither an annotation nor ValueError)"))
+        elif judged and not soft and kind != base_kind and base_kind != "other":
+            shown = "is built" if kind == "ann" else f"raised ValueError({val!r})"
+            out.append(("arrtype-illegal-accepted" if st == "error" else "arrtype-outcome", lab, f"{cname}[{aname}, {spec!r}] {shown}, but Float[Duck, {spec!r}] {'is built' if base_kind == 'ann' else 'is a ValueError'} (reference: {'documented illegal form' if st == 'error' else 'legal'})"))
+    for cname, uname in UNION_PAIRS:
+        u, typ = env.unions[uname]
+        lab = f"{cname}[{uname}]"
+        kind, val = env.build(spec, env.cats[cname], u)
+        env.arr_builds += 1
+        if kind == "other":
+            out.append(("arrtype-totality", lab, f"{cname}[{uname}, {spec!r}] raised {val} (neither an annotation nor ValueError)"))
+            continue
+        if not judged:
+            continue
+        if st == "error":
+            env.arr_illegal += 1
+            if kind != "ValueError":
+                out.append(("arrtype-illegal-accepted", lab, f"{cname}[{uname}, {spec!r}] gives {val!r}: the documented illegal form ({axes}) was accepted"))
+            continue
+        if kind != "ann":
+            if not soft and base_kind == "ann":
+                out.append(("arrtype-legal-rejected", lab, f"{cname}[{uname}, {spec!r}] raised ValueError({val!r}); Float[Duck, {spec!r}] is built"))
+            continue
+        if base_kind != "ann":
+            continue  # reported (or soft) on the plain annotation
+        base_vec = (info.get("_vecs") or {}).get("none")
+        if base_vec is None:
+            base_vec = env.prober.vector(base_val, env.values, None)
+        vals = env.values + env.scalar_probes
+        got = env.prober.vector(val, vals, None)
+        env.arr_vectors += 1
+        want = tuple(base_vec) + tuple((isinstance(v, typ) if rank0 else False) for v in env.scalar_probes)
+        if got != want:
+            i = next(i for i, (x, y) in enumerate(zip(got, want)) if x != y)
+            why = f"Float[Duck, {spec!r}] gives {want[i]!r}" if i < len(env.values) else f"the scalar member {'survives' if rank0 else 'does not survive'} (shape {'admits' if rank0 else 'does not admit'} rank 0), so {want[i]!r}"
+            out.append(("arrtype-meaning", lab, f"{cname}[{uname}, {spec!r}] = {val!r}; probe {vals[i]!r}: verdict {got[i]!r}, but {why}"))
+    return out
+
+
+# ---------------------------------------------------------------- the history dimension
+
+HIST_SCENARIOS = ["disjoint", "twomulti", "nameformat", "illegal-relatives", "legal-relatives"]
+UNKNOWN_FORMAT = "vf-unknown-format"
+L_HIST_FRESH = "never-used category[Duck, spec]"
+L_HIST_PLAIN = "Float[Duck, spec]"
+
+
+def eval_hist(env: Env, spec: str, st, soft, totality_only, base, base_vecs, tp, deep, scenarios=HIST_SCENARIOS):
+    """The history dimension for one spec (see (8) in the module docstring).  Every scenario is
+    self-contained: the operations that precede the rebuilds are part of it.
+    -> [(problem-kind, scenario, text)]"""
+    out = []
+    strict = st in ("ok", "error") and not soft and not totality_only
+    Float, Duck, cats = env.Float, env.Duck, env.cats
+    for scen in scenarios:
+        ops = []  # (label, kind, value, must be ValueError)
+        plan = None
+        extra_outs = []  # builds made during the operations that are themselves judged like rebuilds
+        if scen == "disjoint":
+            inner, prob = env.inner("Float", "q")
+            if inner is None:
+                out.append(("hist-setup", scen, prob))
+                continue
+            ops.append(("Bool[Float[Duck,'q'], spec] (no overlapping dtypes)", *env.build(spec, cats["Bool"], inner), st == "error"))
+            plan = [(L_HIST_PLAIN, Float, Duck), ("Bool[Duck, spec]", cats["Bool"], Duck), ("Float[Float[Duck,'q'], spec]", Float, inner), (L_HIST_FRESH, env.fresh_cat(), Duck)]
+            vec = {L_HIST_FRESH}
+        elif scen == "twomulti":
+            inner, prob = env.inner("Shaped", "... q")
+            inner2, prob2 = env.inner("Shaped", "q")
+            if inner is None or inner2 is None:
+                out.append(("hist-setup", scen, prob or prob2))
+                continue
+            ops.append(("Shaped[Shaped[Duck,'... q'], spec] (multi-axis specifier in the inner annotation)", *env.build(spec, cats["Shaped"], inner), st == "error"))
+            plan = [(L_HIST_PLAIN, Float, Duck), ("Shaped[Duck, spec]", cats["Shaped"], Duck), ("Shaped[Shaped[Duck,'q'], spec]", cats["Shaped"], inner2), (L_HIST_FRESH, env.fresh_cat(), Duck)]
+            vec = {L_HIST_FRESH}
+        elif scen == "nameformat":
+            getf, setf = env.name_format
+            if getf is None or setf is None:
+                continue  # the (undocumented) switch does not exist on this tree
+            cat_x, cat_y = env.fresh_cat(), env.fresh_cat()
+            old_format = getf()
+            try:
+                setf(UNKNOWN_FORMAT)
+                # no annotation can be named: whatever this gives (the statement does not speak about name formats)
+                k, v = env.build(spec, cat_x)
+                ops.append((f"array_name_format={UNKNOWN_FORMAT!r}: never-used X[Duck, spec]", k if k != "other" else "refused-other", v, False))
+                setf("array")
+                k, v = env.build(spec, cat_y)
+            finally:
+                setf(old_format)
+            plan = [(L_HIST_PLAIN, Float, Duck), ("X[Duck, spec] (refused under the unknown name format)", cat_x, Duck), ("Y[Duck, spec] (first built under array_name_format='array')", cat_y, Duck), (L_HIST_FRESH, env.fresh_cat(), Duck)]
+            vec = {"Y[Duck, spec] (first built under array_name_format='array')"}
+            extra_outs = [("while array_name_format='array': never-used Y[Duck, spec]", k, v)]
+        elif scen == "illegal-relatives":
+            if st != "ok" or totality_only:
+                continue
+            for r in dx.illegal_relatives(spec):
+                ops.append((f"Float[Duck, {r!r}] (documented illegal form)", *env.build(r), True))
+            plan = [(L_HIST_PLAIN, Float, Duck), (L_HIST_FRESH, env.fresh_cat(), Duck)]
+            vec = {L_HIST_PLAIN}
+        elif scen == "legal-relatives":
+            if st != "error" or totality_only:
+                continue
+            for r in dx.legal_relatives(spec):
+                ops.append((f"Float[Duck, {r!r}] (legal form)", *env.build(r), False))
+            plan = [(L_HIST_PLAIN, Float, Duck), (L_HIST_FRESH, env.fresh_cat(), Duck)]
+            vec = set()
+        else:
+            raise common.HarnessError(f"unknown history scenario {scen!r}")
+        env.hist_scenarios += 1
+        env.hist_builds += len(ops) + len(plan)
+        bad = False
+        for label, kind, val, must_fail in ops:
+            env.hist_ops_refused += kind == "ValueError"
+            env.hist_ops_built += kind == "ann"
+            if kind == "other":
+                out.append(("hist-totality", scen, f"{label}: building raised {val} (neither an annotation nor ValueError)"))
+                bad = True
+                break
+            if must_fail and strict and kind != "ValueError":
+                out.append(("hist-illegal-accepted", scen, f"{label}: was accepted"))
+                bad = True
+                break
+        if bad:
+            break
+        did = "; ".join(f"{label} -> {'built' if kind == 'ann' else kind}" for label, kind, _v, _m in ops) or "no operation"
+        outs = [(f"after [{did}]: {label}", *env.build(spec, cat, arr)) for label, cat, arr in plan]
+        no_vec = {o[0] for o, (label, _c, _a) in zip(outs, plan) if label not in vec} | {o[0] for o in extra_outs}
+        outs = extra_outs + outs
+        env.hist_builds += len(extra_outs)
+        n0 = env.state_vectors
+        found = judge_state(env, st, soft, totality_only, base, base_vecs, tp, outs, deep, "when built before", no_vec, "hist")
+        env.hist_vectors += env.state_vectors - n0
+        env.state_vectors = n0
+        if found:
+            # the later scenarios of this spec would start from a history that already went wrong:
+            # they are not run, so that every reported scenario replays on its own
+            out += [(kind, scen, text) for kind, text in found]
+            break
     return out
 
 
@@ -517,6 +777,13 @@ def _viol(kind, spec, text, replay):
 def _run_shard(job):
     if job.get("type") == "envstart":
         return _run_envstart(job)
+    if job.get("type") == "hist":
+        common.bind_repo()
+        from ..fixtures import c14_probe
+
+        # in a fork of the worker: the scenarios of one job cannot reach those of another job
+        # that the same worker runs later (the outcome does not depend on the scheduling)
+        return c14_probe.in_fork(_run_hist, job)
     common.bind_repo()
     env = Env(job["quick"])
     stats = dict(ok=0, error=0, dontcare=0, nontrivial=0, normal_forms=0, respelled=0, treepath=0, soft_rejected=0, built=0, valueerror=0, state_scenarios=0, state_deep=0)
@@ -550,6 +817,11 @@ def _run_shard(job):
             if len(viols) < 100:
                 item = dict(SWITCHES)[short]
                 viols.append(_viol(f"{kind}:{short}", spec, text, dict(kind="state", spec=spec, switch=item, deep=deep, quick=job["quick"], totality_only=fam == "totality")))
+        # the array-type dimension
+        for kind, lab, text in eval_arrtype(env, spec, st, dx.classify(spec)[1], info["_soft"], fam == "totality", info):
+            if len(viols) < 100:
+                viols.append(_viol(f"{kind}:{lab}", spec, text, dict(kind="arrtype", spec=spec, quick=job["quick"], totality_only=fam == "totality")))
+    stats.update(arr_builds=env.arr_builds, arr_vectors=env.arr_vectors, arr_kept=env.arr_kept, arr_refused=env.arr_refused, arr_illegal=env.arr_illegal)
     stats["checks"] = env.prober.checks
     stats["builds"] = env.builds
     stats["rebuilds"] = env.prober.rebuilds
@@ -557,6 +829,37 @@ def _run_shard(job):
     stats["state_builds"] = env.state_builds
     stats["state_vectors"] = env.state_vectors
     return stats, viols, samples, fam_counts
+
+
+def _hist_base(env, spec, totality_only):
+    """What the history scenarios of one spec are compared with: the reference status and a
+    control build of Float[Duck, spec] made before the scenarios of this spec."""
+    st, axes, soft = dx.classify(spec)
+    if totality_only:
+        st = "dontcare"
+    base = env.build(spec)
+    tp = base[0] == "ann" and isinstance(axes, tuple) and dx.has_treepath(axes)
+    return st, soft, base, tp
+
+
+def _run_hist(job):
+    """The history dimension.  These jobs are queued after every baseline job, so that no worker
+    process judges a baseline after it ran a history scenario (worker processes are reused
+    from job to job, and whatever a scenario leaves behind in a changed library must not make
+    a baseline violation that does not replay on its own)."""
+    common.bind_repo()
+    env = Env(job["quick"])
+    viols = []
+    n = 0
+    for fam, spec, deep in job["specs"]:
+        tot = fam == "totality"
+        st, soft, base, tp = _hist_base(env, spec, tot)
+        n += 1
+        for kind, scen, text in eval_hist(env, spec, st, soft, tot, base, None, tp, deep):
+            if len(viols) < 100:
+                viols.append(_viol(f"{kind}:{scen}", spec, text, dict(kind="hist", spec=spec, scenario=scen, deep=deep, quick=job["quick"], totality_only=tot)))
+    stats = dict(hist_specs=n, hist_scenarios=env.hist_scenarios, hist_builds=env.hist_builds + n, hist_vectors=env.hist_vectors, hist_ops_refused=int(env.hist_ops_refused), hist_ops_built=int(env.hist_ops_built), hist_checks=env.prober.checks)
+    return stats, viols, [], {}
 
 
 # ---------------------------------------------- interpreter started with a switch set
@@ -651,9 +954,13 @@ def run(ctx):
     n_env = len(jobs)
     for i, idx in enumerate(common.shards(len(space), n_sh, ctx.seed)):
         jobs.append(dict(specs=[space[j] + (space[j][1] in deep,) for j in idx], quick=ctx.quick, sample_fams=["single", "pair", "seq", "ws", "name", "namepair", "namedoc"]))
+    n_base = len(jobs)
+    # the history dimension last (see _run_hist)
+    for i, idx in enumerate(common.shards(len(space), n_sh, ctx.seed)):
+        jobs.append(dict(type="hist", specs=[space[j] + (space[j][1] in deep,) for j in idx], quick=ctx.quick))
     outs = common.pmap(_run_shard, jobs)
     # deterministic merge: order by the first spec of the shard (the seed only rotates shards)
-    order = list(range(n_env)) + sorted(range(n_env, len(jobs)), key=lambda i: jobs[i]["specs"][0][1])
+    order = list(range(n_env)) + sorted(range(n_env, n_base), key=lambda i: jobs[i]["specs"][0][1]) + sorted(range(n_base, len(jobs)), key=lambda i: jobs[i]["specs"][0][1])
     outs = [outs[i] for i in order]
     stats = common.merge_counts(o[0] for o in outs)
     fam_counts = common.merge_counts(o[3] for o in outs)
@@ -677,12 +984,16 @@ def run(ctx):
     samples.append(dict(family="comma", spec="a,b", outcome=env.build("a,b")[0]))
     samples.append(dict(family="state", spec="#*in", switch="jaxtyping_disable", outcome="same outcome in all 6 rebuilds, same acceptance vectors" if not eval_state(env, "#*in", "ok", False, False, eval_spec(env, "#*in")[2], True, SWITCHES[:1]) else "violation"))
 
+    _st, _pr, _info = eval_spec(env, "#*in")
+    samples.append(dict(family="arrtype", spec="*a *b", outcome="ValueError on every scalar array type and union" if not eval_arrtype(env, "*a *b", "error", "two multi-axis specifiers", False, False, eval_spec(env, "*a *b")[2]) else "violation"))
+    samples.append(dict(family="arrtype", spec="#*in", outcome="the scalar type itself on 6 scalar array types; unions accept the arrays of Float[Duck,'#*in'] + the scalars" if not eval_arrtype(env, "#*in", _st, dx.classify("#*in")[1], False, False, _info) else "violation"))
+    samples.append(dict(family="hist", spec="#*in", outcome="same outcome and acceptance vectors after refused nested builds and refused illegal relatives" if not eval_hist(env, "#*in", _st, False, False, _info["_base"], _info.get("_vecs"), _info["_tp"], True) else "violation"))
     viols.sort(key=lambda v: (len(v.key), v.key))
     cov = dict(
-        evaluations=stats["builds"] + stats["checks"] + special_evals + stats["envstart_builds"] + stats["envstart_checks"],
+        evaluations=stats["builds"] + stats["checks"] + special_evals + stats["envstart_builds"] + stats["envstart_checks"] + stats["hist_builds"] + stats["hist_checks"],
         specs=len(space),
-        annotations_built_or_refused=stats["builds"],
-        isinstance_probes=stats["checks"],
+        annotations_built_or_refused=stats["builds"] + stats["hist_builds"],
+        isinstance_probes=stats["checks"] + stats["hist_checks"],
         distinct_nontrivial=stats["nontrivial"],
         rule="a spec is non-trivial when it is a documented illegal form (must be ValueError) or a legal spec written differently from its normal form "
         "(modifier order, name= prefix, '...', whitespace), so that the differential comparison with the normal form is not vacuous; legal specs already in "
@@ -708,6 +1019,19 @@ def run(ctx):
         state_specs_with_meaning_comparison=stats["state_deep"],
         state_vectors=stats["state_vectors"],
         state_deep_space=len(deep),
+        arrtype_pairs=[f"{c}[{t}]" for c, t in SCALAR_PAIRS + UNION_PAIRS + OTHER_PAIRS],
+        arrtype_builds=stats["arr_builds"],
+        arrtype_illegal_must_be_valueerror=stats["arr_illegal"],
+        arrtype_legal_scalar_kept=stats["arr_kept"],
+        arrtype_legal_scalar_refused=stats["arr_refused"],
+        arrtype_union_vectors=stats["arr_vectors"],
+        hist_specs=stats["hist_specs"],
+        hist_scenarios=stats["hist_scenarios"],
+        hist_scenario_kinds=HIST_SCENARIOS,
+        hist_builds=stats["hist_builds"],
+        hist_preceding_builds_refused=stats["hist_ops_refused"],
+        hist_preceding_builds_made=stats["hist_ops_built"],
+        hist_vectors=stats["hist_vectors"],
         envstart_interpreters=n_env,
         envstart_specs_per_switch=len(es),
         envstart_builds=stats["envstart_builds"],
@@ -732,7 +1056,13 @@ def run(ctx):
         + " modifier choices); every name as `name=` prefix of 6 tokens; "
         + "process state: EVERY spec of the space rebuilt 6 times per config switch (off: fresh combination U; switch on: U + fresh A; on then off: U, A, fresh B) "
         + "and compared with the switch-off build by outcome, and (the 4 of them that involve A, B or U-after-off) by acceptance vectors (contexts none, K1, tree:empty) on the sub-space state_deep_space; "
-        + f"interpreter started with the switch in the environment: {len(es)} specs per switch, judged completely after switching off",
+        + f"interpreter started with the switch in the environment: {len(es)} specs per switch, judged completely after switching off; "
+        + f"array type: EVERY spec of the space x {len(SCALAR_PAIRS)} (category, scalar array type) pairs + {len(UNION_PAIRS)} unions of a scalar type and an array class "
+        + f"(outcome on all; acceptance of the union annotation of every legal spec over the probe shapes + 10 scalar probes, no context) + {len(OTHER_PAIRS)} other array-type expressions "
+        + "(np.ndarray, Any, bound TypeVar, constrained TypeVar, nested annotation: outcome only); "
+        + "history: EVERY spec of the space x {nested build with disjoint dtypes, nested build onto an annotation with a multi-axis specifier, builds under an unknown array_name_format and under 'array', "
+        + "for legal specs <=5 illegal relatives, for illegal specs <=8 legal relatives} each followed by 2-4 rebuilds (used / related / never-used combination) compared with the baseline build "
+        + "by outcome and, on the sub-space state_deep_space, by acceptance vectors (one rebuild per scenario); run in jobs of their own, queued after every baseline job",
     )
     return Result(
         level="exploration",
@@ -744,6 +1074,8 @@ def run(ctx):
             "acceptance over the probe shapes under 3 contexts separates any two different meanings expressible in the token alphabet",
             "a name is any token accepted by str.isidentifier() (docs: 'any identifier'); the reference never consults Python's keyword tables or expression grammar",
             "a user-defined AbstractDtype subclass with a new name is a (array type, dtype) combination the library cannot have seen before",
+            "array type: which legal annotations on a scalar array type survive is the scalar law of C15 (refs/dtypes_c15.scalar_rule); the categories are chosen so that the rule is never don't-care",
+            "history: 'q' and '... q' (inner annotations of the nested builds) are legal dim strings outside the token alphabet of the space",
         ],
         notes=[
             "don't-care: empty base without '_', '?_', '?_name', more than one '=', non-identifier doc prefix; bases '-1' and '1.5' may be rejected with ValueError",
@@ -751,6 +1083,8 @@ def run(ctx):
             "reference meaning is not consulted when one name is used both as a single-axis and as a multi-axis name (docs silent)",
             "process state: for docs-silent forms and soft bases only totality is demanded in every state (the statement leaves their outcome open); "
             "annotations are probed only while every switch is off (checks under jaxtyping_disable are C19's subject)",
+            "array type: a legal spec on np.generic (mentioned by no document) may give anything but a non-ValueError exception; don't-care and totality-only specs: totality only, on every array type",
+            "history: whether the nested build itself is refused for a LEGAL spec is C15's nesting law and not judged here; preceding builds are judged for totality, and for ValueError where the dim string itself is a documented illegal form",
         ],
     )
 
@@ -765,8 +1099,15 @@ def replay(rep):
         res = _spawn_envstart(rep["switch"], [rep["spec"]])
         return dict(violates=bool(res["problems"]), problems=[f"{k}: {t}" for k, _s, t in res["problems"]])
     env = Env(rep.get("quick", True))
+    if rep["kind"] == "hist":
+        st, soft, base, tp = _hist_base(env, rep["spec"], rep.get("totality_only", False))
+        hprobs = eval_hist(env, rep["spec"], st, soft, rep.get("totality_only", False), base, None, tp, rep.get("deep", True), [rep["scenario"]])
+        return dict(violates=bool(hprobs), reference=st, control_build=base[0], problems=[f"{k}:{sc}: {t}" for k, sc, t in hprobs])
     st, probs, info = eval_spec(env, rep["spec"], rep.get("totality_only", False))
     shown = {k: str(v) for k, v in info.items() if not k.startswith("_")}
+    if rep["kind"] == "arrtype":
+        aprobs = eval_arrtype(env, rep["spec"], st, dx.classify(rep["spec"])[1], info["_soft"], rep.get("totality_only", False), info)
+        return dict(violates=bool(aprobs), reference=st, info=shown, problems=[f"{k}:{lab}: {t}" for k, lab, t in aprobs])
     if rep["kind"] == "state":
         sw = [(s, i) for s, i in SWITCHES if i == rep["switch"]]
         sprobs = eval_state(env, rep["spec"], st, info["_soft"], rep.get("totality_only", False), info, rep.get("deep", True), sw)
